@@ -130,7 +130,9 @@ class MLEval(PairEval):
     def ev_Subscript(self, e, st):
         if unparse(e) not in st.vars:
             base = self.ev(e.value, st)
-            if isinstance(base, PairColl) and not isinstance(e.slice, ast.Slice):
+            if isinstance(base, PairColl) and isinstance(e.slice, ast.Slice):
+                return base
+            if isinstance(base, PairColl):
                 return PairColl(base.depth - 1) if base.depth > 1 else self.pair()
         return super().ev_Subscript(e, st)
 
